@@ -77,6 +77,13 @@ def dispatchC10 : List Str → Option (List Str)
       match args with
       | [s] => some ["ok".toList, if decide (Legal cfg opNames s) then ['1'] else ['0']]
       | _ => some ["bad-request".toList]
+    else if cmd == "c10.block".toList then
+      -- c10.block named abstract nbodies -> ok (generic nchildren)*   (one pair per interface entity)
+      match args with
+      | [n, a, k] =>
+        let es := ifaceEntities { named := n == ['1'], abstract := a == ['1'], bodies := List.range (natOf k) }
+        some ("ok".toList :: (es.map (fun e => [if e.1 then ['1'] else ['0'], decimal e.2.length])).flatten)
+      | _ => some ["bad-request".toList]
     else if cmd == "c10.url".toList then
       match args with
       | [d, s] => some ("ok".toList :: urlOf d s :: outfileOf d s)
